@@ -223,9 +223,41 @@ func writeReplay(p string, rf *ReplayFile) error {
 	if err := os.MkdirAll(filepath.Dir(p), 0o755); err != nil {
 		return err
 	}
-	b, err := json.MarshalIndent(rf, "", " ")
+	b, err := json.Marshal(rf)
 	if err != nil {
 		return err
+	}
+	// one top-level key per line, tape on one line: readable and compact
+	var m map[string]json.RawMessage
+	if json.Unmarshal(b, &m) == nil {
+		keys := []string{"property", "scenario", "seed", "run", "oracle", "key", "msg", "minimised", "original_tape_len", "tree", "faults", "tape", "trace"}
+		var sb strings.Builder
+		sb.WriteString("{\n")
+		for i, k := range keys {
+			v := m[k]
+			if k == "trace" {
+				var tr []string
+				json.Unmarshal(v, &tr)
+				sb.WriteString(" \"trace\": [\n")
+				for j, l := range tr {
+					lb, _ := json.Marshal(l)
+					sb.WriteString("  " + string(lb))
+					if j < len(tr)-1 {
+						sb.WriteString(",")
+					}
+					sb.WriteString("\n")
+				}
+				sb.WriteString(" ]")
+			} else {
+				sb.WriteString(fmt.Sprintf(" %q: %s", k, v))
+			}
+			if i < len(keys)-1 {
+				sb.WriteString(",")
+			}
+			sb.WriteString("\n")
+		}
+		sb.WriteString("}\n")
+		b = []byte(sb.String())
 	}
 	return os.WriteFile(p, b, 0o644)
 }
